@@ -103,6 +103,30 @@ OptOf(x) == IF x = NULL THEN <<>> ELSE <<x>>
 AUvGet(r, i) == OptOf(Logical(r)[i + 1])
 AToOptIter(r) == [i \in 1..ALen(r) |-> OptOf(Logical(r)[i])]
 
+(* ---- the dynamic layer (tea-dyn, tea-rolling/src/dynamic) ---------------------------- *)
+
+\* A dynamic vector is a container tagged with a name and a dtype.  A dynamic call forwards to the static kernel
+\* of that dtype and wraps the result again: same values as the static call on the extracted column, the name and
+\* the dtype kept; a dtype without kernels is an ERROR (never a panic).  A second operand of another dtype is first
+\* converted to the dtype of the first (cast::<T>() converts to T - not to the vector's own dtype).
+DynKernelDtypes == {"f64", "f32", "i64", "i32"}
+DynDtypes == DynKernelDtypes \cup {"bool", "str"}
+DynCall(v, F(_)) ==
+    IF v.dtype \in DynKernelDtypes THEN <<"ok", [name |-> v.name, dtype |-> v.dtype, data |-> F(v.data)]>> ELSE <<"err">>
+DynCast(x, dt) == [x EXCEPT !.dtype = dt]              \* values converted by the cast algebra of Casts.tla
+DynCall2(v, x, F(_, _)) ==
+    IF v.dtype \in DynKernelDtypes THEN <<"ok", [name |-> v.name, dtype |-> v.dtype, data |-> F(v.data, DynCast(x, v.dtype).data)]>>
+    ELSE <<"err">>
+DynForwards ==
+    \A dt \in DynDtypes, dx \in DynDtypes :
+        LET v == [name |-> "px", dtype |-> dt, data |-> Logical(c)]
+            x == [name |-> "x", dtype |-> dx, data |-> Logical(c)]
+            r == DynCall(v, LAMBDA d : d)
+            r2 == DynCall2(v, x, LAMBDA d, e : e)
+        IN  /\ (dt \in DynKernelDtypes) <=> (r[1] = "ok")
+            /\ r[1] = "ok" => r[2].name = "px" /\ r[2].dtype = dt /\ r[2].data = Logical(c)
+            /\ r2[1] = "ok" => r2[2].dtype = dt /\ DynCast(x, dt).dtype = dt     \* the operand arrives in v's dtype
+
 (* ---- enumeration ------------------------------------------------------------------- *)
 
 Rings == {[rep |-> "ring", cap |-> cap, head |-> h, len |-> n,
